@@ -4,7 +4,8 @@
 (* kind = "server": a server holds three connections.  Each connection has a script of         *)
 (* well-formed requests (HttpMsg.tla); before anything is sent the environment may tamper with *)
 (* the bytes of ONE connection (actions Mut*: broken start line, header line, chunk size,      *)
-(* chunk terminator, length; flipped / dropped / inserted bytes; junk; truncation).  Then the  *)
+(* chunk terminator, length; MutNum: a numeric field replaced by text of several byte classes; *)
+(* flipped / dropped / inserted bytes; junk; truncation).  Then the                            *)
 (* bytes arrive in pieces (Deliver), peers may hang up (PeerClose) and the server is serviced  *)
 (* (Service = one pass of its service loop, Settle = passes until nothing changes).            *)
 (* What a service pass may do to a connection:                                                 *)
@@ -31,7 +32,9 @@ CONSTANTS MaxMut,       \* at most that many tamperings
           MaxPos,       \* constant bound of the byte positions tampered with
           MaxDepth,     \* bound on the length of behaviours (model checking only)
           Level,        \* 1: few scripts (model checking), 2: all scripts (simulation)
-          Kinds         \* which programs are exercised: subset of {"server", "client"}
+          Kinds,        \* which programs are exercised: subset of {"server", "client"}
+          PlanSet,      \* the sorts of tampering explored (subset of Plans)
+          MinMut        \* the environment tampers at least that often before it starts
 
 Conns == 1..3
 
@@ -124,13 +127,38 @@ XBody(m, mu) ==
          \o <<"0">> \o CRLF \o (IF mu = "trailerbad" THEN <<"T", "v">> \o CRLF ELSE HLines(m.body.trailers)) \o CRLF
 MWire(m, mu) == XStart(m, mu) \o XHeads(m, mu) \o CRLF \o XBody(m, mu)
 
+(* ---- numeric fields (Content-Length, chunk size, status code, version digit) replaced by text of several byte classes: *)
+(*      ASCII non-digits, signs, blanks, forms Python's int() accepts beyond 1*DIGIT, bytes >= 0x80 that ISO-8859-1  *)
+(*      decoding turns into characters counted as digits / numerics (superscripts 0xB2 0xB3 0xB9, fractions 0xBC..), *)
+(*      nothing at all, overlong numbers                                                                              *)
+Nines == [i \in 1..25 |-> "9"]
+NumBad == << <<"x">>, <<"+", "1">>, <<"-", "2">>, <<"1", SP, "2">>, <<"1", "_", "0">>, <<"0", "x", "1", "0">>,
+             <<"xB2">>, <<"1", "xB2">>, <<"xB3", "xB9">>, <<"xB9", "0">>, <<"xBC">>, <<"2", "xBD">>, <<"HI">>,
+             <<>>, Nines, <<"1", ".", "5">>, <<"1", "e", "1">> >>
+NumFields == {"length", "chunksize", "status", "version"}
+NumApplicable(m, f) == CASE f = "length" -> m.body.k = "fixed"
+                         [] f = "chunksize" -> m.body.k = "chunked"
+                         [] f = "status" -> m.kind = "resp"
+                         [] f = "version" -> TRUE
+BadVer(v) == <<"H", "T", "T", "P", "/">> \o v \o <<".", "1">>
+NWire(m, f, v) ==
+    CASE f = "length" -> StartLine(m) \o HLines(m.heads \o LenHeader(m, v)) \o CRLF \o BodyWire(m.body)
+      [] f = "chunksize" -> StartLine(m) \o HLines(AllHeads(m)) \o CRLF
+                            \o v \o CRLF \o m.body.chunks[1].data \o CRLF
+                            \o Cat([i \in 1..(Len(m.body.chunks) - 1) |-> ChunkWire(m.body.chunks[i + 1])])
+                            \o <<"0">> \o CRLF \o HLines(m.body.trailers) \o CRLF
+      [] f = "status" -> m.start[1] \o <<SP>> \o v \o <<SP>> \o m.start[3] \o CRLF \o HLines(AllHeads(m)) \o CRLF \o BodyWire(m.body)
+      [] f = "version" -> (IF m.kind = "req" THEN m.start[1] \o <<SP>> \o m.start[2] \o <<SP>> \o BadVer(v)
+                           ELSE BadVer(v) \o <<SP>> \o m.start[2] \o <<SP>> \o m.start[3])
+                          \o CRLF \o HLines(AllHeads(m)) \o CRLF \o BodyWire(m.body)
+
 FlipBytes == {CR, LF, SP, ":", ";", "HI", "0", "x", "-"}
 Junk == << <<LF, LF>>, <<CR, LF, CR, LF>>, <<"HI", "HI", ":", CR, LF, CR, LF>>, <<"G", "E", "T", CR, LF, CR, LF>>,
            <<":", CR, LF>>, <<"0", CR, LF, CR, LF>>, <<"G", "E", "T", SP, "/", SP, "H", "T", "T", "P", "/", "1", ".", "1", LF, LF>> >>
 
 (* ---- behaviour ---- *)
 UsedConns == IF kind = "server" THEN Conns ELSE {1}
-Plans == {"msg", "flip", "drop", "insert", "junk", "truncate"}
+Plans == {"msg", "num", "flip", "drop", "insert", "junk", "truncate"}
 
 Init == /\ kind \in Kinds
         /\ phase = "plan" /\ plan = "none"
@@ -149,7 +177,8 @@ Init == /\ kind \in Kinds
 
 \* the environment first decides what sort of tampering comes next (or to start) ...
 Plan(pl) == /\ phase = "plan" /\ nmut < MaxMut
-            /\ (pl = "msg") => (nmut = 0)     \* structured breakage applies to the untouched first message
+            /\ pl \in PlanSet
+            /\ (pl \in {"msg", "num"}) => (nmut = 0)     \* structured breakage applies to the untouched first message
             /\ phase' = "mutate" /\ plan' = pl
             /\ UNCHANGED <<kind, bad, script, wire, wlen, mutated, nmut, sent, pieces, pclosed, open, failed, resp, raised>>
 \* ... then does it, on the one connection it may tamper with
@@ -163,13 +192,16 @@ Tamper(pl, c, w) == /\ phase = "mutate" /\ plan = pl /\ c = bad
 \* the first message of the connection is broken in a structured way (the rest follows untouched)
 MutMsg(c, mu) == /\ Applicable(Fam(kind)[script[c][1]], mu)
                  /\ Tamper("msg", c, MWire(Fam(kind)[script[c][1]], mu) \o WireOf(kind, Tail(script[c])))
+\* a numeric field of the first message is replaced by the jth piece of bad text
+MutNum(c, f, j) == /\ NumApplicable(Fam(kind)[script[c][1]], f)
+                   /\ Tamper("num", c, NWire(Fam(kind)[script[c][1]], f, NumBad[j]) \o WireOf(kind, Tail(script[c])))
 MutFlip(c, i, b) == i \in 1..Len(wire[c]) /\ wire[c][i] # b /\ Tamper("flip", c, [wire[c] EXCEPT ![i] = b])
 MutDrop(c, i) == i \in 1..Len(wire[c]) /\ Len(wire[c]) > 1 /\ Tamper("drop", c, SubSeq(wire[c], 1, i - 1) \o SubSeq(wire[c], i + 1, Len(wire[c])))
 MutInsert(c, i, b) == i \in 1..Len(wire[c]) /\ Tamper("insert", c, SubSeq(wire[c], 1, i - 1) \o <<b>> \o SubSeq(wire[c], i, Len(wire[c])))
 MutJunk(c, j) == j \in 1..Len(Junk) /\ Tamper("junk", c, Junk[j] \o (IF j % 2 = 0 THEN wire[c] ELSE <<>>))
 MutTruncate(c, i) == i \in 1..(Len(wire[c]) - 1) /\ Tamper("truncate", c, SubSeq(wire[c], 1, i))
 
-Start == /\ phase = "plan" /\ phase' = "run"
+Start == /\ phase = "plan" /\ nmut >= MinMut /\ phase' = "run"
          /\ wlen' = [c \in Conns |-> Len(wire[c])]
          /\ wire' = [c \in Conns |-> <<>>]
          /\ UNCHANGED <<kind, plan, bad, script, mutated, nmut, sent, pieces, pclosed, open, failed, resp, raised>>
@@ -241,6 +273,7 @@ Settle == \E o1 \in Choices(1), o2 \in Choices(2), o3 \in Choices(3) : ServiceCo
 
 Next == \/ \E pl \in Plans : Plan(pl)
         \/ \E c \in Conns, mu \in MutKinds : MutMsg(c, mu)
+        \/ \E c \in Conns, f \in NumFields, j \in 1..Len(NumBad) : MutNum(c, f, j)
         \/ \E c \in Conns, i \in 1..MaxPos, b \in FlipBytes : MutFlip(c, i, b)
         \/ \E c \in Conns, i \in 1..MaxPos : MutDrop(c, i)
         \/ \E c \in Conns, i \in 1..MaxPos, b \in FlipBytes : MutInsert(c, i, b)
